@@ -18,7 +18,8 @@ claim("C09", "Coq theorems on compute_parents / the ancestor walk + exhaustive f
       "Theorems C09_parent (parent = nearest preceding layer of smaller level, None at level 0, for every layer list on which compute_parents succeeds), "
       "C09_parent_lt, C09_total (succeeds on every forest; fails with InvalidInput exactly on orphan layers; never panics), C09_visible (is_visible = "
       "conjunction of the flags of the layer and all its ancestors, at any depth, loop fuel never exhausted), C09_hidden/C09_hidden_image (hidden layers "
-      "contribute nothing to frame images), for all inputs; the check re-proves them and runs every forest of up to 6 (quick) / 8 (thorough) layers with "
+      "contribute nothing to frame images), for all inputs; end to end (Props/C09_e2e.v): for every serialised program that loads, Layer::parent and "
+      "Layer::is_visible of the loaded sprite are the rule applied to the layer chunks of the program (C09_e2e_parent, C09_e2e_visible); the check re-proves them and runs every forest of up to 6 (quick) / 8 (thorough) layers with "
       "every flag assignment, random forests up to 300 layers and chains up to depth 65535 against the implementation and the model.",
       "Modelled, not verified: compute_parents / is_visible / frame_row models against src/layer.rs and src/file.rs (tied by the exhaustive run).",
       "DESIGN.md section 5, C09")
